@@ -1,5 +1,6 @@
 import Hertz.Proofs.Tracer
 import Hertz.Proofs.ServeSkeleton
+import Hertz.Proofs.TraceRefine
 /-!
 # C19 — tracer start/finish calls pair up exactly once per request, in causal order
 
@@ -34,10 +35,41 @@ idle: log `S F S F F`) has been repaired in /repo (`traceStarted`); the old witn
 positive regression example, and the mutation "remove the `traceStarted` guard" breaks
 `skeleton_balanced` as well as the correspondence.
 
+From byte streams to histories (`Proofs/TraceRefine.lean`), for every configuration, stream end and byte
+stream of every length:
+* `classify_refines_serve` — the history `H1.classify` reads off a byte stream and the event list of the
+  keep-alive loop model `H1.serve` project onto the same word over the alphabet they share (`H1.Out`:
+  request target reached the handler / response written: handler's or error response, connection kept
+  or closed).  The projections are explicit: `H1.projEv` (forgets the parsed request except its target,
+  the status except "is it 200", and the interim `100 Continue`) and `H1.projIters` (idle-wait end,
+  `ErrNothingRead` and `io.EOF` closes show nothing; a read failure answered by `writeErrorResponse` shows
+  `resp false true`; a handled request shows its target and the response).  Neither alphabet embeds in
+  the other, so there is no projection from one onto the other: `Ev.req` carries the whole parsed request
+  and `Ev.resp` the status, which no `Outcome` has; an `Outcome` tells three silent closes apart, which
+  the (empty) event list does not.
+  Hypotheses = exactly what `H1.serve` does not model: `poll = false` (in-loop idle handling; `serve` has
+  no return-to-poller style), `Common t` for every iteration (not: unwinding handler panic, hijack,
+  failing write/flush of the response or of the interim `100 Continue`, handler-initiated
+  `Connection: close` — none of them is an event of `serve`, whose handler is the echo handler), and no
+  `Ev.unmodelled` (hand-over to `mime/multipart`; `classify_refines_serve_noPreParse`: implied by
+  `preParse = false`).  `refinement_needs_*` show on concrete streams that each hypothesis is needed.
+  A recovered handler panic and a write failure scheduled for a *later* write are on the common ground.
+* `tracer_log_of_every_stream`, `tracer_pairs_per_request` — the tracer theorems applied to byte streams:
+  the call log of every stream is accepted by `logOK` (every configuration, `poll` included); on the
+  common ground it has exactly one handler run — inside its own `Start … Finish` pair — per `.req`
+  event of `serve`, at most one more pair (the exchange that failed before the handler), and as many
+  finishes as starts.
+
+* `classify_refines_serve_upto` — for every stream (no hypothesis on the iterations): the projection of the
+  longest prefix of the history that stays on the common ground is a prefix of the projection of
+  `serve`'s events; i.e. the two models agree up to the first iteration that leaves the common ground.
+
 TODO-OPEN (not part of the property; decided per explored case by the correspondence):
-* `classify_refines_serve`: the history `H1.classify` reads off a byte stream projects onto the event list
-  of the keep-alive loop model `H1.serve` (same readers, same order) — the two are compared with the real
-  server separately (C01–C03 and C19 ops), not with each other by a theorem.
+* from the first iteration outside the common ground on, `classify` and `serve` are not compared by a
+  theorem: they describe different handlers there (`serve`: echo handler, writes never fail).
+* return-to-poller style (`poll = true`): `tracer_log_of_every_stream` covers it; the refinement and the
+  count of handler runs per `.req` event are stated for `poll = false` only, because `serve` models the
+  in-loop idle wait (`refinement_needs_inloop_idle` is the stream on which the two styles differ).
 -/
 namespace Hertz.Props.C19
 open Hertz Hertz.Tracer
@@ -106,6 +138,129 @@ theorem iter_follows_skeleton (cfg : Cfg) (first : Bool) (it : Iter) :
       r.1.acts = eraseActs (iterStep cfg first it).1 ∧ r.2 = (iterStep cfg first it).2.isNone :=
   Hertz.Tracer.iter_follows_skeleton cfg first it
 
+/-! ### from byte streams to histories -/
+
+/-- **Refinement.**  In-loop idle handling, every iteration on the ground both models cover, no
+hand-over to `mime/multipart`: the history read off the byte stream by `H1.classify` and the event list
+of the keep-alive loop model `H1.serve` project onto the same sequence of handled request targets,
+responses and close decisions. -/
+theorem classify_refines_serve (c : H1.TraceCfg) (hp : c.poll = false) (e : H1.End) (s : Bytes)
+    (hc : ∀ t ∈ H1.classify c e s, H1.Common t = true) (hu : H1.Ev.unmodelled ∉ H1.serve c.h1 e s) :
+    H1.projIters true (H1.classify c e s) = H1.projEv (H1.serve c.h1 e s) :=
+  H1.classify_refines_serve c hp e s hc hu
+
+/-- the same with the hypothesis on `serve` replaced by the configuration flag that implies it -/
+theorem classify_refines_serve_noPreParse (c : H1.TraceCfg) (hp : c.poll = false) (hpp : c.h1.preParse = false)
+    (e : H1.End) (s : Bytes) (hc : ∀ t ∈ H1.classify c e s, H1.Common t = true) :
+    H1.projIters true (H1.classify c e s) = H1.projEv (H1.serve c.h1 e s) :=
+  H1.classify_refines_serve c hp e s hc (H1.serve_no_unmodelled c.h1 hpp e s)
+
+/-- **Refinement up to divergence**, for every stream: the part of the history before the first iteration
+that leaves the common ground projects onto a prefix of what `H1.serve` reports. -/
+theorem classify_refines_serve_upto (c : H1.TraceCfg) (hp : c.poll = false) (e : H1.End) (s : Bytes)
+    (hu : H1.Ev.unmodelled ∉ H1.serve c.h1 e s) :
+    H1.projIters true ((H1.classify c e s).takeWhile (H1.Common ·)) <+: H1.projEv (H1.serve c.h1 e s) :=
+  H1.classify_refines_serve_upto c hp e s hu
+
+/-- **The tracer theorems apply to every byte stream**: whatever the configuration (idle style included),
+the way the stream ends and the bytes, the call log of the connection is a sequence of complete pairs. -/
+theorem tracer_log_of_every_stream (c : H1.TraceCfg) (e : H1.End) (s : Bytes) (lv : Level) :
+    logOK lv (observe lv (H1.traceActs c true e s)) = true ∧
+    alternates (observe lv (H1.traceActs c true e s)) = true :=
+  ⟨H1.traceActs_logOK c e s lv, pairsFrom_alternates lv 1 1 _ (H1.traceActs_logOK c e s lv)⟩
+
+/-- **One pair per request.**  On the common ground the call log has exactly one handler run — inside
+its own `Start … Finish` pair, by `logOK` — per `.req` event of `H1.serve`, at most one pair more (the
+exchange that failed or ended before the handler), and every start has its finish. -/
+theorem tracer_pairs_per_request (c : H1.TraceCfg) (hp : c.poll = false) (e : H1.End) (s : Bytes)
+    (hc : ∀ t ∈ H1.classify c e s, H1.Common t = true) (hu : H1.Ev.unmodelled ∉ H1.serve c.h1 e s) (lv : Level) :
+    logOK lv (observe lv (H1.traceActs c true e s)) = true ∧
+    nHandles (observe lv (H1.traceActs c true e s)) = H1.nReqs (H1.serve c.h1 e s) ∧
+    H1.nReqs (H1.serve c.h1 e s) ≤ nStarts (observe lv (H1.traceActs c true e s)) ∧
+    nStarts (observe lv (H1.traceActs c true e s)) ≤ H1.nReqs (H1.serve c.h1 e s) + 1 ∧
+    nFinishes (observe lv (H1.traceActs c true e s)) = nStarts (observe lv (H1.traceActs c true e s)) :=
+  H1.traceActs_per_request c hp e s hc hu lv
+
+/-! #### the hypotheses of `classify_refines_serve` are satisfiable and each is needed -/
+
+/-- `GET /a HTTP/1.1\r\nHost: x\r\n\r\n` -/
+def reqA : Bytes := [71,69,84,32,47,97,32,72,84,84,80,47,49,46,49,13,10,72,111,115,116,58,32,120,13,10,13,10]
+/-- `POST /p HTTP/1.1\r\nHost: x\r\nContent-Length: 2\r\nExpect: 100-continue\r\n\r\nhi` -/
+def reqCont : Bytes := [80,79,83,84,32,47,112,32,72,84,84,80,47,49,46,49,13,10,72,111,115,116,58,32,120,13,10,67,111,110,116,101,110,116,45,76,101,110,103,116,104,58,32,50,13,10,69,120,112,101,99,116,58,32,49,48,48,45,99,111,110,116,105,110,117,101,13,10,13,10,104,105]
+/-- the same with `Content-Type: multipart/form-data` -/
+def reqMp : Bytes := [80,79,83,84,32,47,112,32,72,84,84,80,47,49,46,49,13,10,72,111,115,116,58,32,120,13,10,67,111,110,116,101,110,116,45,84,121,112,101,58,32,109,117,108,116,105,112,97,114,116,47,102,111,114,109,45,100,97,116,97,13,10,67,111,110,116,101,110,116,45,76,101,110,103,116,104,58,32,50,13,10,69,120,112,101,99,116,58,32,49,48,48,45,99,111,110,116,105,110,117,101,13,10,13,10,104,105]
+/-- `BAD\r\n\r\n` -/
+def reqBad : Bytes := [66,65,68,13,10,13,10]
+/-- `GET <target> HTTP/1.1\r\nHost: x\r\n\r\n` -/
+def getReq (target : Bytes) : Bytes :=
+  [71,69,84,32] ++ target ++ [32,72,84,84,80,47,49,46,49,13,10,72,111,115,116,58,32,120,13,10,13,10]
+def tHijack : Bytes := [47,104,105,106,97,99,107]
+def tWfailnext : Bytes := [47,119,102,97,105,108,110,101,120,116]
+def tClose : Bytes := [47,99,108,111,115,101]
+def tPanic : Bytes := [47,112,97,110,105,99]
+
+/-- a plain request, one with `Expect: 100-continue` and a body, then a malformed head: all hypotheses
+hold, three iterations, six events -/
+example : (∀ t ∈ H1.classify {} .eof (reqA ++ reqCont ++ reqBad), H1.Common t = true) ∧
+    H1.Ev.unmodelled ∉ H1.serve {} .eof (reqA ++ reqCont ++ reqBad) ∧
+    (H1.classify {} .eof (reqA ++ reqCont ++ reqBad)).length = 3 ∧
+    (H1.serve {} .eof (reqA ++ reqCont ++ reqBad)).length = 6 ∧
+    H1.projEv (H1.serve {} .eof (reqA ++ reqCont ++ reqBad)) =
+      [.req [47, 97], .resp true false, .req [47, 112], .resp true false, .resp false true] := by
+  decide +kernel
+
+/-- the configuration hypotheses of `classify_refines_serve(_noPreParse)` / `tracer_pairs_per_request`
+hold for the default configuration used above -/
+example : ({} : H1.TraceCfg).poll = false ∧ ({} : H1.TraceCfg).h1.preParse = false := ⟨rfl, rfl⟩
+
+/-- a recovered handler panic, and a write failure scheduled for a write that never happens, are on the
+common ground -/
+example : (∀ t ∈ H1.classify { recovery := true } .stall (getReq tPanic ++ getReq tWfailnext), H1.Common t = true) ∧
+    (H1.classify { recovery := true } .stall (getReq tPanic ++ getReq tWfailnext)).length = 3 := by
+  decide +kernel
+
+/-- `classify_refines_serve_upto` on a stream that leaves the common ground at its second request
+(hijack): the first exchange is common, `serve` goes on with what the echo handler would do -/
+example : H1.Ev.unmodelled ∉ H1.serve {} .eof (reqA ++ getReq tHijack ++ reqA) ∧
+    H1.projIters true ((H1.classify {} .eof (reqA ++ getReq tHijack ++ reqA)).takeWhile (H1.Common ·)) =
+      [.req [47, 97], .resp true false] ∧
+    (H1.projEv (H1.serve {} .eof (reqA ++ getReq tHijack ++ reqA))).length = 6 := by decide +kernel
+
+/-- outside the common ground the two models describe different handlers — hijack: -/
+theorem refinement_needs_common_hijack :
+    H1.projIters true (H1.classify {} .eof (reqA ++ getReq tHijack ++ reqA)) ≠
+      H1.projEv (H1.serve {} .eof (reqA ++ getReq tHijack ++ reqA)) := by decide +kernel
+
+/-- … unwinding handler panic (no recovery middleware): -/
+theorem refinement_needs_common_panic :
+    H1.projIters true (H1.classify {} .eof (getReq tPanic ++ reqA)) ≠
+      H1.projEv (H1.serve {} .eof (getReq tPanic ++ reqA)) := by decide +kernel
+
+/-- … a failing write (scheduled by the request before): -/
+theorem refinement_needs_common_writeErr :
+    H1.projIters true (H1.classify {} .eof (getReq tWfailnext ++ reqA)) ≠
+      H1.projEv (H1.serve {} .eof (getReq tWfailnext ++ reqA)) := by decide +kernel
+
+/-- … a handler that closes the connection itself: -/
+theorem refinement_needs_common_close :
+    H1.projIters true (H1.classify {} .eof (getReq tClose ++ reqA)) ≠
+      H1.projEv (H1.serve {} .eof (getReq tClose ++ reqA)) := by decide +kernel
+
+/-- return-to-poller style: a fragment shorter than four bytes after a request is read as a request head
+(`Serve` is entered afresh, no idle peek) and answered 400, while the in-loop idle wait of `serve` ends
+silently; every iteration is on the common ground -/
+theorem refinement_needs_inloop_idle :
+    (∀ t ∈ H1.classify { poll := true } .eof (reqA ++ [71]), H1.Common t = true) ∧
+    H1.projIters true (H1.classify { poll := true } .eof (reqA ++ [71])) ≠
+      H1.projEv (H1.serve {} .eof (reqA ++ [71])) := by decide +kernel
+
+/-- multipart pre-parse: `serve` stops with `unmodelled` (no opinion), `classify` files the request under
+"body read failed after `100 Continue`"; every iteration is on the common ground -/
+theorem refinement_needs_no_unmodelled :
+    (∀ t ∈ H1.classify { h1 := { preParse := true } } .eof reqMp, H1.Common t = true) ∧
+    H1.projIters true (H1.classify { h1 := { preParse := true } } .eof reqMp) ≠
+      H1.projEv (H1.serve { preParse := true } .eof reqMp) := by decide +kernel
+
 /-! ### non-vacuity and regression examples -/
 
 def okNext : Iter := { outcome := .handled .next }
@@ -113,6 +268,10 @@ def idleEnd : Iter := { peekFails := true, outcome := .handled .next }
 
 def kind : Call → String
   | .start .. => "S" | .handle .. => "H" | .finish .. => "F"
+
+/-- the log of the stream `reqA ++ reqCont ++ reqBad` (hypotheses of `tracer_pairs_per_request` hold, see above): three pairs, two handler runs -/
+example : (observe 2 (H1.traceActs {} true .eof (reqA ++ reqCont ++ reqBad))).map kind =
+    ["S", "H", "F", "S", "H", "F", "S", "F"] := by decide +kernel
 
 /-- F9 regression, in-loop idle handling: two requests, then the idle wait fails (peer close or idle
 time-out — the same path).  Before the repair the log was `S H F S H F F`. -/
